@@ -4,7 +4,7 @@ from __future__ import annotations
 
 from .. import gen, probe, spec
 from ..probe import violation
-from .common import call, grow_while_asking
+from .common import call, grow_while_asking, use_as_input_of_derivations
 
 PROP = "C07"
 LEVEL = "exploration"
@@ -121,6 +121,14 @@ def run_case(ctx, g, rng):
             S.counters["wl:strings-both-uri-and-curie"] += 1
     for p in allp[:3]:
         call(c.format_curie, p, rng.choice(gen.IDS))
+    if g % 4 == 3:
+        for x in use_as_input_of_derivations(api, c, rng):
+            for q in (x, x + d + "1"):
+                call(c.parse, q, strict=False)
+                call(c.is_uri, q)
+                call(c.is_curie, q)
+                call(c.compress_or_standardize, q)
+                call(c.expand_or_standardize, q)
     if g % 141 == 0:
         q = (allp[0] + d + allu[0] + "1") if allp and allu else "x"
         probe.sample({**w, "string": q, "parse": call(c.parse, q, strict=False), "compress_or_standardize": call(c.compress_or_standardize, q),
